@@ -25,7 +25,8 @@ KnownShape(h) ==
   IF \E r1, r2 \in AllReqs(h) : Key(r1.name) = Key(r2.name) /\ NestedClash(r1.kind, r2.kind)
   THEN "nested-instance-merge"
   ELSE IF OwnerNameShape(h) THEN "owner-import-name"
-  ELSE IF WorldShape(h) THEN "component-or-module-requirement" ELSE ""
+  ELSE IF WorldShape(h) THEN "component-or-module-requirement"
+  ELSE IF SharedShape(h) THEN "shared-instance-type" ELSE ""
 
 ReplayLine ==
   LET ok == ~Fails(hist)
@@ -35,7 +36,7 @@ ReplayLine ==
       canon |-> IF ok THEN ContractCanon(hist) ELSE <<>>,
       kf |-> KnownShape(hist),
       \* for the histories KF28 excuses: what the Impl layer (merge_world / merge_module_type as they are) yields
-      impl |-> IF WorldShape(hist)
+      impl |-> IF WorldShape(hist) \/ SharedShape(hist)
                THEN [ok |-> ~st.failed,
                      imports |-> IF st.failed THEN <<>>
                                  ELSE [s \in {st.imports[i].n.s : i \in DOMAIN st.imports} |->
@@ -58,4 +59,6 @@ FocusShape == {1, 2, 5, 8, 29, 32, 37, 39, 40, 41, 42, 43, 44}
 FocusWorld == 45..58
 \* two-digit versions, used types from track-less interfaces (0.0.x, pre-release), exports after a nested instance
 FocusMore == {1, 2, 5, 25, 26, 29, 32} \cup (59..66)
+\* one instance type definition under two plain names
+FocusShared == {1, 23, 24} \cup (67..70)
 ====
